@@ -28,6 +28,7 @@ struct fw_board {
 extern struct fw_board fw_board;
 extern int fw_factory_hook_calls;
 extern int fw_hook_rs_log;
+extern double fw_phys_pos[8];
 extern int fw_hook_relay_log;
 extern int fw_verify_oracle;
 extern unsigned long long fw_verify_len;
